@@ -51,6 +51,10 @@ def _bounds(entry, cfg, tier):
 def configs(tier):
     out = []
     gl = ['K2+K1', 'P3'] + (['K3', 'P4', 'S3'] if tier == 'thorough' else [])
+    from checks import C11
+    for c in C11.configs(tier):
+        if c.get('family') == 'infnodes' and c.get('R0') and not c.get('default_ic'):
+            out.append(dict(c, tags=['infnodes'] + [t for t in c.get('tags', []) if t != 'infnodes']))
     for entry in ALL:
         sir = entry in SIR
         for g in gl + (['K3'] if tier == 'quick' and entry == 'Gillespie_SIR' else []):
@@ -160,6 +164,9 @@ def _setup(cfg):
 
 def run_path(h, cfg):
     fam = cfg['family']
+    if fam == 'infnodes':
+        from checks import C11
+        return C11.run_infnodes(h, cfg)      # initially recovered nodes neither get infected nor relay the infection
     if fam == 'reject':
         return run_reject(h, cfg)
     if fam == 'wrapper':
